@@ -28,7 +28,40 @@ from placement.objects import trait as trait_obj  # noqa: E402
 
 logging.disable(logging.CRITICAL)
 
-ESCAPED = []  # (exc type name, innermost placement frame) of the last requests
+
+def _memoize_schema_check():
+    """jsonschema.validate() re-validates the *schema* against its
+    meta-schema on every request (40 % of the request time).  The verdict for
+    one schema object cannot change, so successful checks are remembered per
+    schema object (kept alive, so ids are never reused).  Instance validation
+    is untouched.  PV_FAST_SCHEMA=0 disables this."""
+    if os.environ.get('PV_FAST_SCHEMA', '1') != '1':
+        return
+    import jsonschema.validators as jv
+    cls = jv.Draft202012Validator
+    if getattr(cls, '_pv_memo', None) is not None:
+        return
+    orig = cls.check_schema.__func__
+    memo = {}
+
+    def check_schema(klass, schema, *a, **kw):
+        if klass is cls and not a and not kw:
+            hit = memo.get(id(schema))
+            if hit is not None and hit is schema:
+                return
+            orig(klass, schema)
+            if len(memo) < 2000:
+                memo[id(schema)] = schema
+            return
+        return orig(klass, schema, *a, **kw)
+
+    cls.check_schema = classmethod(check_schema)
+    cls._pv_memo = memo
+
+
+_memoize_schema_check()
+
+ESCAPED = {'n': 0, 'last': None}  # (exc type, innermost placement frame)
 
 
 def _innermost_placement_frame(tb):
@@ -52,9 +85,9 @@ class _EscapeRecorder(object):
             return self.application(environ, start_response)
         except Exception as exc:
             fr = _innermost_placement_frame(exc.__traceback__)
-            ESCAPED.append((type(exc).__name__,
-                            '%s:%s' % fr if fr else '?'))
-            del ESCAPED[:-50]
+            ESCAPED['n'] += 1
+            ESCAPED['last'] = (type(exc).__name__,
+                               '%s:%s' % fr if fr else '?')
             raise
 
 
